@@ -84,6 +84,7 @@ func (c *Collection) writeWithMeta(key string, body []byte, xattrs []byte, oldCa
 		return err
 	}
 	if e != nil {
+		verifPoint("post.before", e.key, e.cas)
 		c.postNewEvent(e)
 	}
 	return nil
@@ -258,6 +259,7 @@ func (c *Collection) WriteUpdateWithXattrs(
 			trace("\tprevious = BucketDocument{Body: %q, Xattr: %q, UserXattr: %q, Cas: %d}", previous.Body, previous.Xattrs, previous.Cas)
 		}
 
+		verifPoint("wuwx.afterread", key, previous.Cas)
 		// Invoke the callback:
 		updatedDoc, err := callback(previous.Body, previous.Xattrs, previous.Cas)
 		if err != nil {
